@@ -40,3 +40,6 @@ print(c[0]['quick_cmd'] if c else './check $id --tier quick')")
   echo "check $id rc=$rc $(grep -c '^VIOLATION' "$dst/check-$id.log") violation line(s): $(grep -A1 '^VIOLATION' "$dst/check-$id.log" | grep key= | head -3 | cut -c1-160 | tr '\n' ';')" | tee -a "$log"
 done
 rm -rf "$tmp"
+# the runs above rewrote evidence files with what they saw on the seeded tree: put the committed ones back
+for id in "$@"; do git -C /verif checkout -q -- "evidence/${id:0:3}.json" 2>/dev/null; done
+git -C /verif checkout -q -- replays 2>/dev/null
